@@ -218,6 +218,24 @@ impl Property for C01 {
     fn strata(&self, tier: Tier) -> Vec<Stratum> {
         vec![Stratum::random("programs", tier.pick(40_000, 1_000_000), tier.pick(384, 768))]
     }
+    /// rustc stage: emitted modules are compiled with parity-scale-codec's derives and every registry
+    /// type decodes valid encodings (independent encoder, cross-checked with scale-value), consumes
+    /// all input and re-encodes identically
+    fn extra(&self, tier: Tier, seed: u64, stats: &mut Stats) -> Result<(), Failure> {
+        let (batches, size, encs) = tier.pick((1, 60, 4), (12, 150, 6));
+        for b in 0..batches {
+            let (cases, counters) = crate::rustc_tier::make_cases(seed, 0xC01 + b as u64, size, true, encs);
+            for (k, v) in counters {
+                if !k.starts_with("label:") {
+                    stats.count(&format!("rustc_{k}"), v);
+                }
+            }
+            let n = crate::rustc_tier::run_batch(&format!("C01-{b}"), &cases, true)?;
+            stats.count("rustc_cases_compiled", cases.len() as u64);
+            stats.count("rustc_byte_round_trips", n);
+        }
+        Ok(())
+    }
     fn eval(&self, stratum: &str, input: Input, stats: &mut Stats) -> Result<(), Failure> {
         let Input::Tape(bytes) = input else {
             return Err(Failure::infra("C01 expects tapes"));
